@@ -380,6 +380,18 @@ def _split_ws(ex, st, s, maxsplit):
 
 def m_join(ex, st, s, args):
     lst = args[0]
+    from .values import Ref as _Ref, JoinAtom
+    if isinstance(lst, _Ref) and isinstance(st.obj(lst), HList) and st.obj(lst).prefix is not None and s.concrete() == b"":
+        o = st.obj(lst)
+        out = SStr([], s.is_str)
+        for it in o.prefix:
+            if not isinstance(it, SStr):
+                raise Unsupported("join of non-string")
+            out = concat(out, it)
+        return [ex.res(st, SStr(list(out.atoms) + [JoinAtom(o.sym, s.is_str)], s.is_str))]
+    if isinstance(lst, _Ref) and isinstance(st.obj(lst), HList) and st.obj(lst).sym is not None and s.concrete() == b"" \
+            and not isinstance(st.obj(lst).sym.eshape, WinShape):
+        return [ex.res(st, SStr([JoinAtom(st.obj(lst).sym, s.is_str)], s.is_str))]
     items = ex.concrete_items(st, lst)
     if items is None:
         seq = ex.sym_seq(st, lst)
